@@ -501,6 +501,14 @@ void Circuit::cullUnusedNodes(Subnet &subnet)
 
 
 
+/// The mux passes below reason about the selector as a Boolean condition: that is only meaningful for a connected one-bit selector
+/// (a two-input mux may also have a wider selector, e.g. a dynamic index into a two-bit vector).
+static bool hasBooleanSelector(const Node_Multiplexer *muxNode)
+{
+	auto selector = muxNode->getDriver(0);
+	return selector.node != nullptr && getOutputWidth(selector) == 1;
+}
+
 void Circuit::mergeMuxes(Subnet &subnet)
 {
 	bool done;
@@ -510,6 +518,7 @@ void Circuit::mergeMuxes(Subnet &subnet)
 		for (size_t i = 0; i < m_nodes.size(); i++) {
 			if (Node_Multiplexer *muxNode = dynamic_cast<Node_Multiplexer*>(m_nodes[i].get())) {
 				if (muxNode->getNumInputPorts() != 3) continue;
+				if (!hasBooleanSelector(muxNode)) continue;
 
 				//std::cout << "Found 2-input mux" << std::endl;
 
@@ -526,6 +535,7 @@ void Circuit::mergeMuxes(Subnet &subnet)
 
 					if (Node_Multiplexer *prevMuxNode = dynamic_cast<Node_Multiplexer*>(input0.node)) {
 						if (prevMuxNode->getNumInputPorts() != 3) continue;
+						if (!hasBooleanSelector(prevMuxNode)) continue;
 						if (prevMuxNode == muxNode) continue; // sad thing
 						if (!subnet.contains(prevMuxNode)) continue; // todo: Optimize
 
@@ -720,6 +730,7 @@ void Circuit::removeIrrelevantMuxes(Subnet &subnet)
 		for (auto n : subnet) {
 			if (Node_Multiplexer *muxNode = dynamic_cast<Node_Multiplexer*>(n)) {
 				if (muxNode->getNumInputPorts() != 3) continue;
+				if (!hasBooleanSelector(muxNode)) continue;
 
 				//std::cout << "Found 2-input mux" << std::endl;
 
@@ -996,6 +1007,7 @@ void Circuit::cullMuxConditionNegations(Subnet &subnet)
 	for (auto n : subnet) {
 		if (Node_Multiplexer *muxNode = dynamic_cast<Node_Multiplexer*>(n)) {
 			if (muxNode->getNumInputPorts() != 3) continue;
+			if (!hasBooleanSelector(muxNode)) continue;
 
 			bool done;
 			do {
